@@ -164,7 +164,11 @@ func (c *C14) Run(x *engine.Ctx) *engine.Violation {
 			default:
 				r = gen.Malformed()
 			}
-			w.AddConn(&service.ClientConn{Addr: service.ProverAddr, Reqs: []*service.Request{r}, Frag: t.Draw(4), StartStep: 60 + t.Draw(120)})
+			cyc := 0
+			if w.Cycles > 1 && w.StopAfterBegun < 0 {
+				cyc = t.Draw(w.Cycles) // requests also in later start/stop cycles on the same addresses
+			}
+			w.AddConn(&service.ClientConn{Addr: service.ProverAddr, Reqs: []*service.Request{r}, Frag: t.Draw(4), StartStep: 60 + t.Draw(120), Cycle: cyc})
 		}
 	}
 	leak := runWorld(x, sim, w, c.sys.Mode)
@@ -219,7 +223,8 @@ func (c *C14) Run(x *engine.Ctx) *engine.Violation {
 		if r.Resp == nil && !accepted {
 			continue // arrived after the listener closed, or never taken up: may legally be refused or dropped
 		}
-		if cls, detail := service.Judge(c.sys, r); cls != "" {
+		// completeness and status are C14's business; whether a 200 body is a valid proof is C09's and C13's
+		if cls, detail := service.JudgeDelivery(c.sys, r); cls != "" {
 			if accepted {
 				return engine.Violatef("C14/accepted-request-not-completed/"+cls, "%s (request was in the handler or already answered when stop was requested at step %d)", detail, op.StopStep)
 			}
